@@ -295,108 +295,135 @@ def check(run, replay=None):
     # 126996 setter outside the translated subset; also used for the library's default product information): answers to ISO requests on a
     # node configured with strings of 0..32 characters (32 = the whole field), decoded against the published layout (seed C15-11)
     if preplay or not replay:
-        import random
-        from nodesim import parse_case, parse_result, ref_fp_decode
-        r = random.Random(run.seed * 7919 + 1515)
+        node_families(run, replay, cases, preplay)
 
-        def hx(n):
-            return bytes(r.choice(b'ABCDEFGHIJKLMNOPQRSTUVWXYZabcdefghijklmnopqrstuvwxyz0123456789 .-/') for _ in range(n)).hex() or '-'
-        pcases = []
-        if preplay:
-            pcases = cases
-        else:
-            combos = [(32, 32, 32, 32), (31, 32, 1, 0), (0, 0, 0, 32), (32, 0, 31, 5), (1, 2, 3, 4)] + [tuple(r.choice([0, 1, 15, 30, 31, 32]) for _ in range(4)) for _ in range(6 if run.tier == 'quick' else 200)]
-            for c in combos:
-                key = r.choice(['pprod', 'pprod', 'prod'])
-                pcases.append('NODE mode=1 ndev=1 src=%d q=40 slots=5 t0=5000 %s=%s | R 18ea%02x32 3 14f001 ; P ; R 18eaff33 3 14f001 ; P' % (
-                    r.choice([22, 0, 100]), key, ','.join(hx(n) for n in c), 0))
-            pcases = [c.replace('18ea0032', '18ea%02x32' % int(c.split('src=')[1].split()[0])) for c in pcases]
 
-        def prod_oracle(case, res):
-            if res.startswith('crash') or res.startswith('oob'):
-                return 'memory:' + res
-            v = [t.split('=', 1)[1] for t in case.split('|')[0].split() if t.startswith('pprod=') or t.startswith('prod=')][0].split(',')
-            s = [bytes.fromhex(x) if x != '-' else b'' for x in v]
-            fld = lambda b: list(b[:32]) + [0xff] * (32 - len(b[:32]))
-            want = [2101 & 255, 2101 >> 8, 666 & 255, 666 >> 8] + fld(s[0]) + fld(s[1]) + fld(s[2]) + fld(s[3]) + [0, 1]
-            per_op, _st = parse_result(res)
-            n = 0
-            for evs in per_op:
-                fr = [e[3] for e in evs if e[0] == 'tx' and ((e[1] >> 8) & 0x1ffff) == 126996]
-                if not fr:
-                    continue
-                try:
-                    _sid, payload = ref_fp_decode(fr)
-                except (ValueError, IndexError) as ex:
-                    return 'PGN126996.frames:%s' % ex
-                n += 1
-                if payload != want:
-                    k = next((i for i in range(min(len(payload), len(want))) if payload[i] != want[i]), min(len(payload), len(want)))
-                    return 'PGN126996.product_information:byte %d of the answer is %s, the published layout with the configured strings has %s (length %d / %d)' % (
-                        k, '%02x' % payload[k] if k < len(payload) else '-', '%02x' % want[k] if k < len(want) else '-', len(payload), len(want))
-            return None if n == 2 else 'PGN126996.answers:%d answers to two requests' % n
-        # PGN 60928 as a node builds it from the device information the application sets at run time: SetDeviceInformation (unique number,
-        # function, class, manufacturer code, industry group) and SetDeviceInformationInstances (device instance lower / upper, system
-        # instance; one call may give all three), then SendIsoAddressClaim: the NAME on the bus decoded against the published bit layout (seed C15-13)
-        if not preplay:
-            for _ in range(14 if run.tier == 'quick' else 300):
-                ndev = r.choice([1, 2])
-                i = r.randrange(ndev)
-                ops = []
-                nops = r.randint(1, 4)
-                for _k in range(nops):
-                    # both orders of the two configuration calls matter: each writes part of a byte the other one owns (system instance /
-                    # industry group share NAME byte 7, seed C15-18); the call that only refreshes the unique number uses the header's defaults
-                    if (r.random() < 0.5 and not (_ >= 4 and _ < 8)) or (4 <= _ < 8 and _k == 0):
-                        ops.append('I %d %d %d %d' % (i, r.choice([255, 0, 1, 5, 7]), r.choice([255, 0, 1, 3, 31]), r.choice([255, 0, 2, 15, 8, 9]) if not 4 <= _ < 8 else r.choice([8, 9, 15, 12])))
-                    elif r.random() < 0.3 or 4 <= _ < 8:
-                        ops.append('D %d %d 255 255 65535 4' % (i, r.choice([54321, 1, 2097151])))
-                    else:
-                        ops.append('D %d %d %d %d %d %d' % (i, r.choice([4294967295, 0, 1, 2097151, 123456]), r.choice([255, 0, 130, 200]), r.choice([255, 0, 25, 127]), r.choice([65535, 0, 275, 2047]), r.choice([255, 0, 4, 7])))
-                    ops.append('Q ac 255 %d 0' % i)
-                pcases.append('NODE mode=1 ndev=%d src=%d q=40 slots=5 t0=5000 | %s' % (ndev, r.choice([22, 100]), ' ; '.join(ops)))
+def node_families(run, replay, cases, preplay):
+    """the node-level families of this check (product information by pointer, NAME from run-time configuration); also run by C05"""
+    import random
+    from nodesim import parse_case, parse_result, ref_fp_decode
+    r = random.Random(run.seed * 7919 + 1515)
 
-        def name_oracle(case, res):
-            if res.startswith('crash') or res.startswith('oob'):
-                return 'memory:' + res
-            head, opss = case.split('|', 1)
-            kv = dict(x.split('=', 1) for x in head.split()[1:] if '=' in x)
-            ndev = int(kv['ndev'])
-            # the library's defaults: unique number 1+i, manufacturer 2046, instances 0, function 130, class 25, industry group 4
-            f = [dict(uq=1 + j, mf=2046, lo=0, up=0, fn=130, cl=25, si=0, ig=4) for j in range(ndev)]
-            per_op, _st = parse_result(res)
-            for k, (o, evs) in enumerate(zip([x.split() for x in opss.split(';')], per_op)):
-                if not o:
-                    continue
-                if o[0] == 'I':
-                    j, lo_, up_, si_ = (int(x) for x in o[1:5])
-                    if lo_ != 255: f[j]['lo'] = lo_ & 7
-                    if up_ != 255: f[j]['up'] = up_ & 31
-                    if si_ != 255: f[j]['si'] = si_ & 15
-                elif o[0] == 'D':
-                    j, uq, fn, cl, mf, ig = (int(x) for x in o[1:7])
-                    if uq != 4294967295: f[j]['uq'] = uq & 0x1fffff
-                    if fn != 255: f[j]['fn'] = fn
-                    if cl != 255: f[j]['cl'] = cl & 0x7f
-                    if mf != 65535: f[j]['mf'] = mf & 0x7ff
-                    if ig != 255: f[j]['ig'] = ig & 7
-                elif o[0] == 'Q' and o[1] == 'ac':
-                    j = int(o[3])
-                    fr = [e for e in evs if e[0] == 'tx' and ((e[1] >> 8) & 0x1ff00) == 60928]
-                    if len(fr) != 1 or len(fr[0][3]) != 8:
-                        return 'PGN60928.frames:op %d: %d address claim frame(s)' % (k, len(fr))
-                    nm = int.from_bytes(bytes(fr[0][3]), 'little')
-                    g = f[j]
-                    got = dict(uq=nm & 0x1fffff, mf=(nm >> 21) & 0x7ff, lo=(nm >> 32) & 7, up=(nm >> 35) & 31, fn=(nm >> 40) & 0xff, cl=(nm >> 49) & 0x7f, si=(nm >> 56) & 15, ig=(nm >> 60) & 7)
-                    for key, label in (('uq', 'unique_number'), ('mf', 'manufacturer_code'), ('lo', 'device_instance_lower'), ('up', 'device_instance_upper'), ('fn', 'device_function'),
-                                       ('cl', 'device_class'), ('si', 'system_instance'), ('ig', 'industry_group')):
-                        if got[key] != g[key]:
-                            return 'PGN60928.%s:op %d: the address claim carries %d, the application set %d (NAME %016x)' % (label, k, got[key], g[key], nm)
-                    if (nm >> 48) & 1 or not (nm >> 63) & 1:
-                        return 'PGN60928.reserved:op %d: reserved bit / arbitrary-address-capable bit wrong in NAME %016x' % (k, nm)
-            return None
+    def hx(n):
+        return bytes(r.choice(b'ABCDEFGHIJKLMNOPQRSTUVWXYZabcdefghijklmnopqrstuvwxyz0123456789 .-/') for _ in range(n)).hex() or '-'
+    pcases = []
+    if preplay:
+        pcases = cases
+    else:
+        combos = [(32, 32, 32, 32), (31, 32, 1, 0), (0, 0, 0, 32), (32, 0, 31, 5), (1, 2, 3, 4)] + [tuple(r.choice([0, 1, 15, 30, 31, 32]) for _ in range(4)) for _ in range(6 if run.tier == 'quick' else 200)]
+        for c in combos:
+            key = r.choice(['pprod', 'pprod', 'prod'])
+            pcases.append('NODE mode=1 ndev=1 src=%d q=40 slots=5 t0=5000 %s=%s | R 18ea%02x32 3 14f001 ; P ; R 18eaff33 3 14f001 ; P' % (
+                r.choice([22, 0, 100]), key, ','.join(hx(n) for n in c), 0))
+        pcases = [c.replace('18ea0032', '18ea%02x32' % int(c.split('src=')[1].split()[0])) for c in pcases]
 
-        def node_oracle(case, res):
-            return prod_oracle(case, res) if ('prod=' in case.split('|')[0]) else name_oracle(case, res)
-        for fs in ('w64', 'w32'):
-            vlib.correspond(run, 'prodinfo-progmem-' + fs, 'h_node', fs, 'NODE', pcases, node_oracle, None, model_args=[fs])
+    def prod_oracle(case, res):
+        if res.startswith('crash') or res.startswith('oob'):
+            return 'memory:' + res
+        v = [t.split('=', 1)[1] for t in case.split('|')[0].split() if t.startswith('pprod=') or t.startswith('prod=')][0].split(',')
+        s = [bytes.fromhex(x) if x != '-' else b'' for x in v]
+        fld = lambda b: list(b[:32]) + [0xff] * (32 - len(b[:32]))
+        want = [2101 & 255, 2101 >> 8, 666 & 255, 666 >> 8] + fld(s[0]) + fld(s[1]) + fld(s[2]) + fld(s[3]) + [0, 1]
+        per_op, _st = parse_result(res)
+        n = 0
+        for evs in per_op:
+            fr = [e[3] for e in evs if e[0] == 'tx' and ((e[1] >> 8) & 0x1ffff) == 126996]
+            if not fr:
+                continue
+            try:
+                _sid, payload = ref_fp_decode(fr)
+            except (ValueError, IndexError) as ex:
+                return 'PGN126996.frames:%s' % ex
+            n += 1
+            if payload != want:
+                k = next((i for i in range(min(len(payload), len(want))) if payload[i] != want[i]), min(len(payload), len(want)))
+                return 'PGN126996.product_information:byte %d of the answer is %s, the published layout with the configured strings has %s (length %d / %d)' % (
+                    k, '%02x' % payload[k] if k < len(payload) else '-', '%02x' % want[k] if k < len(want) else '-', len(payload), len(want))
+        return None if n == 2 else 'PGN126996.answers:%d answers to two requests' % n
+    # PGN 60928 as a node builds it from the device information the application sets at run time: SetDeviceInformation (unique number,
+    # function, class, manufacturer code, industry group) and SetDeviceInformationInstances (device instance lower / upper, system
+    # instance; one call may give all three), then SendIsoAddressClaim: the NAME on the bus decoded against the published bit layout (seed C15-13)
+    if not preplay:
+        for _ in range(14 if run.tier == 'quick' else 300):
+            ndev = r.choice([1, 2])
+            i = r.randrange(ndev)
+            ops = []
+            nops = r.randint(1, 4)
+            for _k in range(nops):
+                # both orders of the two configuration calls matter: each writes part of a byte the other one owns (system instance /
+                # industry group share NAME byte 7, seed C15-18); the call that only refreshes the unique number uses the header's defaults
+                if (r.random() < 0.5 and not (_ >= 4 and _ < 8)) or (4 <= _ < 8 and _k == 0):
+                    ops.append('I %d %d %d %d' % (i, r.choice([255, 0, 1, 5, 7]), r.choice([255, 0, 1, 3, 31]), r.choice([255, 0, 2, 15, 8, 9]) if not 4 <= _ < 8 else r.choice([8, 9, 15, 12])))
+                elif r.random() < 0.3 or 4 <= _ < 8:
+                    ops.append('D %d %d 255 255 65535 4' % (i, r.choice([54321, 1, 2097151])))
+                else:
+                    ops.append('D %d %d %d %d %d %d' % (i, r.choice([4294967295, 0, 1, 2097151, 123456]), r.choice([255, 0, 130, 200]), r.choice([255, 0, 25, 127]), r.choice([65535, 0, 275, 2047]), r.choice([255, 0, 4, 7])))
+                ops.append('Q ac 255 %d 0' % i)
+            pcases.append('NODE mode=1 ndev=%d src=%d q=40 slots=5 t0=5000 | %s' % (ndev, r.choice([22, 100]), ' ; '.join(ops)))
+
+    def name_oracle(case, res):
+        if res.startswith('crash') or res.startswith('oob'):
+            return 'memory:' + res
+        head, opss = case.split('|', 1)
+        kv = dict(x.split('=', 1) for x in head.split()[1:] if '=' in x)
+        ndev = int(kv['ndev'])
+        # the library's defaults: unique number 1+i, manufacturer 2046, instances 0, function 130, class 25, industry group 4
+        f = [dict(uq=1 + j, mf=2046, lo=0, up=0, fn=130, cl=25, si=0, ig=4) for j in range(ndev)]
+        per_op, _st = parse_result(res)
+        for k, (o, evs) in enumerate(zip([x.split() for x in opss.split(';')], per_op)):
+            if not o:
+                continue
+            if o[0] == 'I':
+                j, lo_, up_, si_ = (int(x) for x in o[1:5])
+                if lo_ != 255: f[j]['lo'] = lo_ & 7
+                if up_ != 255: f[j]['up'] = up_ & 31
+                if si_ != 255: f[j]['si'] = si_ & 15
+            elif o[0] == 'D':
+                j, uq, fn, cl, mf, ig = (int(x) for x in o[1:7])
+                if uq != 4294967295: f[j]['uq'] = uq & 0x1fffff
+                if fn != 255: f[j]['fn'] = fn
+                if cl != 255: f[j]['cl'] = cl & 0x7f
+                if mf != 65535: f[j]['mf'] = mf & 0x7ff
+                if ig != 255: f[j]['ig'] = ig & 7
+            elif o[0] == 'Q' and o[1] == 'ac':
+                j = int(o[3])
+                fr = [e for e in evs if e[0] == 'tx' and ((e[1] >> 8) & 0x1ff00) == 60928]
+                if len(fr) != 1 or len(fr[0][3]) != 8:
+                    return 'PGN60928.frames:op %d: %d address claim frame(s)' % (k, len(fr))
+                nm = int.from_bytes(bytes(fr[0][3]), 'little')
+                g = f[j]
+                got = dict(uq=nm & 0x1fffff, mf=(nm >> 21) & 0x7ff, lo=(nm >> 32) & 7, up=(nm >> 35) & 31, fn=(nm >> 40) & 0xff, cl=(nm >> 49) & 0x7f, si=(nm >> 56) & 15, ig=(nm >> 60) & 7)
+                for key, label in (('uq', 'unique_number'), ('mf', 'manufacturer_code'), ('lo', 'device_instance_lower'), ('up', 'device_instance_upper'), ('fn', 'device_function'),
+                                   ('cl', 'device_class'), ('si', 'system_instance'), ('ig', 'industry_group')):
+                    if got[key] != g[key]:
+                        return 'PGN60928.%s:op %d: the address claim carries %d, the application set %d (NAME %016x)' % (label, k, got[key], g[key], nm)
+                if (nm >> 48) & 1 or not (nm >> 63) & 1:
+                    return 'PGN60928.reserved:op %d: reserved bit / arbitrary-address-capable bit wrong in NAME %016x' % (k, nm)
+        return None
+
+    # PGN 126993 as a node builds it (through the inline alias SetHeartbeat of NMEA2000.h) from the interval the application configured: intervals
+    # above 65535 ms, field in units of 10 ms (seed C15-19)
+    if not preplay:
+        for iv in ([65540, 120000, 655320] if run.tier == 'quick' else [65536, 65540, 70000, 120000, 300000, 655320, 655310]):
+            pcases.append('NODE mode=1 ndev=1 src=22 q=40 slots=5 t0=5000 hb=1 | H %d 0 ; T %d ; P ; T %d ; P ; T %d ; P' % (iv, iv + 5, iv, iv))
+
+    def hb_oracle(case, res):
+        if res.startswith('crash') or res.startswith('oob'):
+            return 'memory:' + res
+        iv = int(case.split('|')[1].split(';')[0].split()[1])
+        per_op, _st = parse_result(res)
+        seen = 0
+        for evs in per_op:
+            for e in evs:
+                if e[0] == 'tx' and ((e[1] >> 8) & 0x1ffff) == 126993:
+                    seen += 1
+                    fld = e[3][0] | e[3][1] << 8
+                    if len(e[3]) != 8 or fld != iv // 10:
+                        return 'PGN126993.interval:the heartbeat of a node configured with %d ms states %d (x 10 ms), the published field holds %d' % (iv, fld, iv // 10)
+        return None if seen >= 2 else 'PGN126993.frames:%d heartbeats in three intervals' % seen
+
+    def node_oracle(case, res):
+        head = case.split('|')[0]
+        return prod_oracle(case, res) if ('prod=' in head) else hb_oracle(case, res) if ' hb=1' in head else name_oracle(case, res)
+    for fs in ('w64', 'w32'):
+        vlib.correspond(run, 'prodinfo-progmem-' + fs, 'h_node', fs, 'NODE', pcases, node_oracle, None, model_args=[fs])
